@@ -143,6 +143,16 @@ def audit(repo):
     apps = [ln for f, k, l, ln in pm if f == 'request_ids' and k == 'mutate:append' and l]
     if not (orph and pops and apps and min(orph) < min(pops) < max(apps)):
         probs.append('process_msg no longer has the shape: locked orphan test < _requests.pop < locked request_ids.append')
+    # send_msg registers the handler BEFORE it pushes the message (SendReg = registration + push: no response can be
+    # processed for a stream whose handler is not registered yet)
+    sm = [n for n in ast.walk(ast.parse(open(os.path.join(repo, 'cassandra/connection.py')).read()))
+          if isinstance(n, ast.FunctionDef) and n.name == 'send_msg']
+    if sm:
+        reg = [n.lineno for n in ast.walk(sm[0]) if isinstance(n, ast.Subscript) and isinstance(n.ctx, ast.Store)
+               and isinstance(n.value, ast.Attribute) and n.value.attr == '_requests']
+        psh = [n.lineno for n in ast.walk(sm[0]) if isinstance(n, ast.Call) and isinstance(n.func, ast.Attribute) and n.func.attr == 'push']
+        if not reg or not psh or not (max(reg) < min(psh)):
+            probs.append('send_msg: the handler is not registered in _requests before self.push(msg) (lines %r vs %r)' % (reg, psh))
     # defunct / error_all_requests lock regions
     for fn, field, kind in (('Connection.defunct', 'is_defunct', 'write'), ('Connection.error_all_requests', '_requests', 'write')):
         hits = [l for f2, f, k, l, ln in v.acc if f2 == fn and f == field and k == kind]
